@@ -27,7 +27,7 @@ def main():
     lines.append("## 13. Which checks catch which changes\n")
     lines.append("Two independent sources of broken trees, both applied to scratch worktrees of `/repo` (never committed there):\n")
     lines.append("* `/verif/mutants/` — %d small patches written by me, one per \"planned break\" of section 5 plus behaviour-preserving `ok-*` edits; `mutants/run.py` applies each, runs the repository's own suite, then every claimed quick check. Full table: `mutants/RESULTS.md`.\n" % len(m))
-    lines.append("* `/verif/seeded/<ID>-<a..z, 2a>/` — %d changes written in fourteen rounds by fresh sub-agents that were given only the text of one property and a scratch worktree (from round 2 on also a list of what earlier rounds had tried). Each directory holds `patch.diff`, the sub-agent's demonstration (`demo.rs`, `demo_path.txt`), its `notes.md` (what it needs in order to manifest) and `meta.json` (what I ran, what the checks said, and what the checks said *before* I strengthened anything in response to that round). `seeded/evaluate.py` confirms for each change that the demonstration passes without it, that the repository's suite passes with it and that the demonstration fails with it, then runs every claimed quick check. Full table: `seeded/RESULTS.md`.\n" % len(s))
+    lines.append("* `/verif/seeded/<ID>-<a..z, 2a, 2c, 2e>/` — %d changes written in sixteen rounds by fresh sub-agents that were given only the text of one property and a scratch worktree (from round 2 on also a list of what earlier rounds had tried). Each directory holds `patch.diff`, the sub-agent's demonstration (`demo.rs`, `demo_path.txt`), its `notes.md` (what it needs in order to manifest) and `meta.json` (what I ran, what the checks said, and what the checks said *before* I strengthened anything in response to that round). `seeded/evaluate.py` confirms for each change that the demonstration passes without it, that the repository's suite passes with it and that the demonstration fails with it, then runs every claimed quick check. Full table: `seeded/RESULTS.md`.\n" % len(s))
     # mutants summary
     tp = [r for r in m if r[1] == "tests-pass" and r[2] != "NONE"]
     allm = [r for r in m if r[2] != "NONE"]
@@ -41,8 +41,8 @@ def main():
     # seeded per round
     lines.append("\n### Seeded changes (independent sub-agents)\n")
     lines.append("| round | what the sub-agents were told | changes | confirmed | caught by own check as it stood (frozen) | caught by own check now | still missed (see section 12 for why) |\n|---|---|---|---|---|---|---|\n")
-    rounds = {1: "ab", 2: "cd", 3: "ef", 4: "gh", 5: "ij", 6: "kl", 7: "mn", 8: "op", 9: "qr", 10: "st", 11: "uv", 12: "wx", 13: "yz", 14: ["2a", "2b"]}
-    told = {1: "property text only", 2: "+ \"direct edits have been tried, be subtler\"", 3: "+ list of rounds 1-2, \"aim at what random exploration misses\"", 4: "+ list of rounds 1-3, order / asymmetry / derived quantities", 5: "+ list of rounds 1-4 and how the checker works, \"beat it\"", 6: "+ list of rounds 1-5, \"stay inside the property's own quantifier\"", 7: "+ list of rounds 1-6; interleavings of two parties, two rare branches in one call, masked intermediate states, cooperating edits in two crates", 8: "+ list of rounds 1-7; position / late joiners on the bus, leftovers of an error return that trip the next call, type plumbing (conversions, Cow, wrappers), generic vs. the 11 known types", 9: "+ list of rounds 1-8; long histories, construction / drop time and reuse after an error, how the caller holds bus / pages, asymmetry between siblings, silent success", 10: "+ list of rounds 1-9; unusual order / multiplicity, coincidence of two benign events, error values, data-dependent shortcuts", 11: "+ list of rounds 1-10 AND a description of how the checker works (seams, faults, models, biases, run lengths); asked for triggers natural in use but below 1e-5 per run", 12: "+ list of rounds 1-11, the checker description updated with the ranges it now samples, and the hint to look for what no oracle compares", 13: "+ list of rounds 1-12, the checker description, and a list of what is NOT accepted (real seconds, >65535, back doors, error texts, new entry points, both-twins-alike)", 14: "property text only again (one change per property, a fresh session of the checker's author; nothing about earlier rounds or the checker)"}
+    rounds = {1: "ab", 2: "cd", 3: "ef", 4: "gh", 5: "ij", 6: "kl", 7: "mn", 8: "op", 9: "qr", 10: "st", 11: "uv", 12: "wx", 13: "yz", 14: ["2a", "2b"], 15: ["2c", "2d"], 16: ["2e", "2f"]}
+    told = {1: "property text only", 2: "+ \"direct edits have been tried, be subtler\"", 3: "+ list of rounds 1-2, \"aim at what random exploration misses\"", 4: "+ list of rounds 1-3, order / asymmetry / derived quantities", 5: "+ list of rounds 1-4 and how the checker works, \"beat it\"", 6: "+ list of rounds 1-5, \"stay inside the property's own quantifier\"", 7: "+ list of rounds 1-6; interleavings of two parties, two rare branches in one call, masked intermediate states, cooperating edits in two crates", 8: "+ list of rounds 1-7; position / late joiners on the bus, leftovers of an error return that trip the next call, type plumbing (conversions, Cow, wrappers), generic vs. the 11 known types", 9: "+ list of rounds 1-8; long histories, construction / drop time and reuse after an error, how the caller holds bus / pages, asymmetry between siblings, silent success", 10: "+ list of rounds 1-9; unusual order / multiplicity, coincidence of two benign events, error values, data-dependent shortcuts", 11: "+ list of rounds 1-10 AND a description of how the checker works (seams, faults, models, biases, run lengths); asked for triggers natural in use but below 1e-5 per run", 12: "+ list of rounds 1-11, the checker description updated with the ranges it now samples, and the hint to look for what no oracle compares", 13: "+ list of rounds 1-12, the checker description, and a list of what is NOT accepted (real seconds, >65535, back doors, error texts, new entry points, both-twins-alike)", 14: "property text only again (one change per property, a fresh session of the checker's author; nothing about earlier rounds or the checker)", 15: "+ the round-14 change for the same property and what a randomised fault-injecting simulator finds quickly; coincidences, value relations, history positions, ownership / iterator shapes", 16: "+ the round-15 change and the technique / level text of the property's check from MANIFEST.json (\"put your change where this description does not look\")"}
     for r, letters in rounds.items():
         rs = [x for x in s if x["name"].split("-")[1] in letters]
         if not rs:
